@@ -139,6 +139,54 @@ func c04Rules(p *core.Prog, r *core.Run) {
 	// G12: parser discipline
 	c04ParserDiscipline(p, r, "C04.G12", []*ssa.Function{m.parseCH, m.parseExt, m.process}, map[string]bool{DE: true, IP: true})
 
+	// every loop that reads from a cursor runs until that cursor is empty and
+	// consumes on every iteration: no trailing byte of a vector is ignored
+	for _, fn := range []*ssa.Function{m.parseCH, m.parseExt, m.process} {
+		loops := core.Loops(fn)
+		for _, lc := range classifyLoops(p, fn) {
+			reads := false
+			for b := range loops[lc.Header] {
+				for _, in := range b.Instrs {
+					if c, ok := in.(*ssa.Call); ok && matches(`\(\*cryptobyte\.String\)\.Read.*`, p.X(c).Name) {
+						// reads of an inner loop belong to that loop
+						inner := false
+						for h2, body2 := range loops {
+							if h2 != lc.Header && loops[lc.Header][h2] && body2[b] {
+								inner = true
+							}
+						}
+						// a cursor created afresh inside the loop body is not what the loop iterates over
+						fresh := false
+						if cell := p.CellRoot(c.Call.Args[0]); cell != nil {
+							st, calls := p.CellDefs(cell)
+							for _, d := range st {
+								if loops[lc.Header][d.Block()] {
+									fresh = true
+								}
+							}
+							for _, d := range calls {
+								if loops[lc.Header][d.Block()] && d != ssa.CallInstruction(c) {
+									for i, a := range d.Common().Args {
+										if i >= 1 && p.CellRoot(a) == cell {
+											fresh = true
+										}
+									}
+								}
+							}
+						}
+						if !inner && !fresh {
+							reads = true
+						}
+					}
+				}
+			}
+			if !reads {
+				continue
+			}
+			r.Check("C04.G12", fmt.Sprintf("%s:vector-loop@b%d", p.FuncName(fn), lc.Header.Index), lc.Kind == "cursor", p.InstrPos(lc.Header.Instrs[len(lc.Header.Instrs)-1]), "a vector is parsed until its cursor is empty, each element read being checked (so a truncated or dangling element is a decode error, not silently ignored): %s", map[bool]string{true: lc.Why, false: "loop is not of that form - " + lc.Why}[lc.Kind == "cursor"])
+		}
+	}
+
 	// ALERT.map
 	c04AlertMap(p, r, m)
 
